@@ -221,7 +221,7 @@ def run_property(prop, tier, seed, only_fn=None, verbose=False):
                 submit_job(j)
         # second chance for obligations left open under load: longer budget, idle machine
         retry = [dict(j, timeout_ms=j['timeout_ms'] * 6) for j in jobs
-                 if not j['expect_sat'] and by_id[j['id']]['status'] not in ('unsat', 'sat')]
+                 if not j['expect_sat'] and (by_id[j['id']]['status'] not in ('unsat', 'sat') or by_id[j['id']].get('tentative'))]
         if retry:
             for r in pool.map(smt.discharge_one, retry, chunksize=1):
                 r['retried'] = True
@@ -425,6 +425,12 @@ def summarise(prop, tier, seed, fres, jobs, by_id, wall, extra_bounded=None):
         if kf:
             for f_ in kf:
                 known_lines.append('KNOWN-FINDING: property=%s %s' % (prop, f_['text']))
+            continue
+        if o.get('tentative') and not rep.get('reproduced'):
+            # only cvc5 answered sat, z3 stayed undecided even with the long budget, and the counter-model does not
+            # reproduce on the real code: undecided, never a violation
+            undecided.append({'function': '%s:%s' % fr['key'], 'why': 'cvc5-sat-unconfirmed', 'group': '/'.join(g),
+                              'replay': path, 'tried': o.get('tried')})
             continue
         in_base = '/'.join(g) in base_groups.get('%s:%s' % fr['key'], [])
         if g[0] == 'exc' and g[1].startswith('only_raises:'):
